@@ -3,10 +3,12 @@
 package c07
 
 import (
+	"bytes"
 	"encoding/json"
 	"fmt"
 	"os"
 	"strings"
+	"sync"
 	"testing"
 	"time"
 
@@ -191,6 +193,7 @@ func TestHostile(t *testing.T) {
 		// hostile bytes on an RTSP connection
 		path := fmt.Sprintf("/c07/s%d", tid)
 		answered := false
+		continues, framed := true, false // framed: the hostile bytes were a well-framed interleaved frame
 		var hc *vclient.RTSP
 		switch c.Class {
 		case "announce-garbage-sdp", "announce-empty-sdp", "announce-thousand-media":
@@ -202,7 +205,7 @@ func TestHostile(t *testing.T) {
 			var ok bool
 			hc, ok = publish(path)
 			if !ok {
-				out.Put(map[string]interface{}{"t": tid, "e": "session", "class": c.Class, "server_alive": healthy(tid), "other_session_ok": false, "closed_or_answered": false, "note": "publisher handshake failed"})
+				out.Put(map[string]interface{}{"t": tid, "e": "session", "class": c.Class, "server_alive": healthy(tid), "other_session_ok": false, "closed_or_answered": false, "framed": false, "stream_continues": true, "note": "publisher handshake failed"})
 				if hc != nil {
 					hc.Close()
 				}
@@ -210,6 +213,11 @@ func TestHostile(t *testing.T) {
 			}
 			w := &world{codec: "h264", seq: map[byte]uint16{}, tag: "a"}
 			good, _ := w.video(true, 0)
+			// a player inside the server: does the stream go on relaying after the hostile bytes?
+			rec := &relayRec{}
+			if st := media.Get(path); st != nil {
+				st.StartConsume(rec, media.RTPPacket, "c07 relay observer")
+			}
 			hc.C.Write(frame(0, good.Data))
 			var hostile []byte
 			switch c.Class {
@@ -238,6 +246,14 @@ func TestHostile(t *testing.T) {
 			// then a well-formed packet and a keep-alive: either they are served, or the connection is closed
 			good2, _ := w.video(false, 6000)
 			hc.C.Write(frame(0, good2.Data))
+			continues = false
+			for k := 0; k < 400 && !continues; k++ { // up to 2 s
+				continues = rec.has(good2.Data)
+				if !continues {
+					time.Sleep(5 * time.Millisecond)
+				}
+			}
+			framed = c.Class != "garbage-bytes" && c.Class != "frame-length-beyond-then-silence"
 			if c.Class == "frame-length-beyond-then-silence" {
 				answered = true // the server is entitled to wait for the announced bytes until its read timeout
 			} else {
@@ -254,7 +270,33 @@ func TestHostile(t *testing.T) {
 		if hc != nil {
 			hc.Close()
 		}
-		out.Put(map[string]interface{}{"t": tid, "e": "session", "class": c.Class, "server_alive": alive, "other_session_ok": ok2, "closed_or_answered": answered})
+		out.Put(map[string]interface{}{"t": tid, "e": "session", "class": c.Class, "server_alive": alive, "other_session_ok": ok2, "closed_or_answered": answered,
+			"framed": framed, "stream_continues": continues})
 	}
 	vio.WriteJSON(t, "VERIF_OUT2", map[string]interface{}{"cases": len(cases)})
+}
+
+// relayRec records what a consumer of the stream is handed
+type relayRec struct {
+	mu   sync.Mutex
+	seen [][]byte
+}
+
+func (r *relayRec) Consume(p media.Pack) {
+	if pk, ok := p.(*rtp.Packet); ok {
+		r.mu.Lock()
+		r.seen = append(r.seen, append([]byte(nil), pk.Data...))
+		r.mu.Unlock()
+	}
+}
+func (r *relayRec) Close() error { return nil }
+func (r *relayRec) has(data []byte) bool {
+	r.mu.Lock()
+	defer r.mu.Unlock()
+	for _, d := range r.seen {
+		if bytes.Equal(d, data) {
+			return true
+		}
+	}
+	return false
 }
